@@ -1,7 +1,7 @@
 #!/bin/sh
 # Build the overlay venv (/verif/.venv) on top of /venv, offline.
 set -e
-V=/verif/.venv
+V="$(cd "$(dirname "$0")/.." && pwd)/.venv"
 if [ -x "$V/bin/python" ] && "$V/bin/python" -c "import z3, crosshair, psyclone, fparser" 2>/dev/null; then
     exit 0
 fi
